@@ -184,19 +184,24 @@ func (h *HttpServer) readHTTPBody(r *http.Request) ([]byte, error) {
 	case "zstd", "gzip":
 		decompressedCap := h.maxDecompressedBodySize
 		capIsRequestCap := false
-		if requestCapApplied && (decompressedCap <= 0 || limit < decompressedCap) {
-			decompressedCap = limit
-			capIsRequestCap = true
-		} else if decompressedCap == 0 && limit > 0 {
+		if decompressedCap == 0 && h.maxBodySize > 0 {
 			// Derived default. A negative value disables the cap (see
 			// SetMaxDecompressedBodySize) and must not be re-derived.
-			decompressedCap = limit * 16
+			decompressedCap = h.maxBodySize * 16
+		}
+		// The advertised request cap bounds the decoded size on every
+		// non-exempt route, whether or not it is also the tighter wire cap:
+		// otherwise adding a wire cap below it would widen what is accepted.
+		if reqCap := h.maxRequestBytes; reqCap > 0 && !h.isMaxBytesExempt(r.URL.Path) &&
+			(decompressedCap <= 0 || reqCap < decompressedCap) {
+			decompressedCap = reqCap
+			capIsRequestCap = true
 		}
 		out, derr := decompressBounded(encoding, body, decompressedCap)
 		var tooLarge *decodedBodyTooLargeError
 		if errors.As(derr, &tooLarge) {
 			if capIsRequestCap {
-				return nil, &requestBodyTooLargeError{Limit: limit}
+				return nil, &requestBodyTooLargeError{Limit: decompressedCap}
 			}
 			return nil, &RpcError{Type: "ValueError", Message: tooLarge.Error()}
 		}
